@@ -23,14 +23,17 @@ LEVEL = 'proof'
 DRIVER = 'drv_c15'
 HARNESS = 'c15.cpp'
 SOURCES = []            # header-only: WrappableGrid.hpp / Grid.hpp are compiled into the harness
-PROOF_MODULES = ['RomeaProofs.Properties.C15', 'RomeaProofs.Bridge.C15', 'RomeaProofs.Bridge.C15Cor']
+PROOF_MODULES = ['RomeaProofs.Properties.C15', 'RomeaProofs.Bridge.C15', 'RomeaProofs.Lemmas.C15Odometer', 'RomeaProofs.Bridge.C15Loop', 'RomeaProofs.Bridge.C15Cor']
 TRUSTED = ['tools/cxx2lean.py (Python over clang-14\'s JSON AST) translates Grid<int,DIM>::init, WrappableGrid<int,DIM>::wrapCellIndexes_ and '
            'computeCellLinearIndex_ (DIM = 2, 3) from the working tree into RomeaModel/Generated/SrcC15.lean on every run; '
            'RomeaProofs/Bridge/C15*.lean prove them equal to the model\'s wrap / coeffs / cellCount / linIdx (size_t arithmetic modulo 2^64, '
            'identity on the property\'s side conditions) and restate in-bounds / injectivity about the translated index; '
            'WrappableGrid<int,2>::translate is translated too (axis loops unrolled, the blanking loop as recursive functions on fuel) and its '
            'per-axis quantities (numberOfSlabs, firstSlab, lastSlab, wrappedOffset, new accumulated offset, zero-offset skip, axis order) are '
-           'bridged to the model (translate_2_quantities); the blanking loop nest itself is NOT bridged (correspondence check only)',
+           'bridged to the model (translate_2_quantities); the blanking loop nest is bridged too (Bridge/C15Loop.lean: each generated loop '
+           'function is the generic odometer, odometer induction, translate_2_bridge: translated translate_2 = the model\'s WGrid.translate '
+           'for every offset pair, fuel >= cells + 1) and translate_refines / history are restated about the translated code '
+           '(Bridge/C15Cor.lean part 3); DIM = 3 translate is not translated (correspondence check only)',
            'harness/c15.cpp drives WrappableGrid<int,2> / <int,3> through the public interface only; wg.save/wg.load use '
            'the implicit copy constructor',
            'the bounded-exhaustive space is enumerated with de-duplication of reachable states: the dump (offsets + all '
@@ -48,13 +51,14 @@ EXPLANATION = ('refinement proof on the Lean model (translate/set refine a windo
 
 # ------------------------------------------------------------------ stage G: index arithmetic translated (DESIGN.md 2.5b)
 BRIDGE_SPEC = {
-    'translator': 'cxx2lean_state',
+    'vector_encoding': 'plain',         # buffer_[i] -> List.getD / List.set (total; indexes are in range by the asserted preconditions)
     'id': 'C15',
     'headers': ['romea_core_common/containers/grid/WrappableGrid.hpp'],
     'extra': ['template class romea::core::WrappableGrid<int, 2>;', 'template class romea::core::WrappableGrid<int, 3>;'],
     'unsigned_wrap': True,      # size_t index arithmetic is arithmetic modulo 2^64
     'fold_constant_conditions': True,   # `if (DIM == 3)` is decided per instantiation
     'unroll_constant_loops': True,      # `for (size_t axis = 0; axis < DIM; ++axis)` is unrolled
+    'incr_encoding': 'let',             # `if (++cellIndexes[a] < end)`: the incremented value is bound by a `let`
     'functions': [
         {'cxx': 'Grid::init', 'cls': 'Grid<int, 2>', 'suffix': '_2'},
         {'cxx': 'Grid::init', 'cls': 'Grid<int, 3>', 'suffix': '_3'},
